@@ -39,7 +39,7 @@ FORMATS = ["kida", "umist", "leeds", "uclchem", "naunet", "krome"]
 def budget(tier):
     if tier == "quick":
         return dict(examples=25, shards=16)
-    return dict(examples=600, shards=16, shrink_calls=1500)
+    return dict(examples=300, shards=16, shrink_calls=1500)
 
 
 KROME_LO = [(">{}", 1), (".GE.{}", 1), ("{}", 1), (".GT.{}", 1)]
